@@ -19,7 +19,8 @@ RULE = (
     "lattice), async and threaded; generated: client block, spa block, 1..4 transfers per connection "
     "each with (start,length) boundary-biased (multiples of 39 +-1, block end), retry count 1..10, and "
     "fault tapes over the request datagrams (drop/dup/delay) and the segment datagrams "
-    "(drop/dup/delay/swap), optional timer jitter. Non-trivial = >=2 segments and >=1 non-deliver tape "
+    "(drop/dup/delay/swap), optional timer jitter; spa blocks that spell framing tags / verbs / newlines; an unsolicited partial "
+    "update arriving right behind the k-th segment (async). Non-trivial = >=2 segments and >=1 non-deliver tape "
     "entry consumed by a segment; distinct by canonical case."
 )
 ASSUMPTIONS = [
@@ -35,8 +36,19 @@ BLOCK = 1024
 SEG = 39
 
 
-def _blocks(seed):
-    return clients.prng("S", seed, n=BLOCK), clients.prng("C", seed, n=BLOCK)
+TAGGY = [b"</DATAS>", b"</PACKT>", b"<DATAS>", b"</DESCN><DATAS>", b"\n", b"\r\n", b"STATV", b"<PACKT>", b" \t "]
+
+
+def _blocks(seed, taggy=0):
+    S = bytearray(clients.prng("S", seed, n=BLOCK))
+    if taggy:
+        # the spa's bytes may spell framing tags, verbs, newlines: still just data
+        pos = clients.prng("T", seed, taggy, n=24)
+        for i in range(12):
+            t = TAGGY[(pos[2 * i] + taggy) % len(TAGGY)]
+            off = ((pos[2 * i] << 8 | pos[2 * i + 1]) * 7) % (BLOCK - len(t))
+            S[off:off + len(t)] = t
+    return bytes(S), clients.prng("C", seed, n=BLOCK)
 
 
 # ------------------------------------------------------------------ async world
@@ -71,7 +83,7 @@ def _check_transfer(res, tag, cls, C, S, C2, ok, start, length, retry, nstatu, f
 def _run_async(res, case):
     from geckolib.driver import GeckoStatusBlockProtocolHandler
 
-    S, C = _blocks(case["seed"])
+    S, C = _blocks(case["seed"], int(case.get("taggy", 0)))
     W = vworld.World(jitter=case.get("jitter") or None)
     sim = vworld.make_simulator()
     peer = W.add_peer(sim)
@@ -91,6 +103,33 @@ def _run_async(res, case):
                 W.s2c_cycle = list(W.s2c_tape) if tr.get("cyc") and W.s2c_tape else None
                 n_s2c0 = len(W.s2c_tape)
                 w0 = len(W.wire)
+                C_exp = C
+                inj = tr.get("statp")
+                watcher = None
+                if inj:
+                    # an unsolicited partial update arriving right behind the k-th segment of the transfer; its change count
+                    # equals the index of the next segment, its records lie outside the range the transfer installs
+                    k_seg, n_rec = int(inj[0]), max(1, int(inj[0]))
+                    lo, hi = start, min(BLOCK, start + -(-length // SEG) * SEG)
+                    free = [p_ for p_ in range(0, BLOCK - 1, 2) if p_ + 2 <= lo or p_ >= hi]
+                    if len(free) >= n_rec:
+                        recs = [(free[(int(inj[1]) * 31 + j * 17) % len(free)], bytes([(j * 37 + 1) & 255, (j * 11 + 3) & 255])) for j in range(n_rec)]
+                        from .. import refcodec as R
+                        dg = R.frame(sim.vp_identifier, clients.CLIENT_ID, R.partial_update(recs))
+                        for p_, d_ in recs:
+                            C_exp = C_exp[:p_] + d_ + C_exp[p_ + 2:]
+                        d0 = len(W.delivered)
+
+                        async def watch():
+                            while True:
+                                nseg = sum(1 for _, _, x in W.delivered[d0:] if b"<DATAS>STATV" in x)
+                                if nseg >= k_seg:
+                                    W.delivered.append((W.clock.t, W.transports[-1].local_addr, dg))
+                                    W.transports[-1].protocol.datagram_received(dg, peer.addr)
+                                    stats["statp"] = True
+                                    return
+                                await W.sleep(0.004)
+                        watcher = asyncio.ensure_future(watch())
                 task = asyncio.ensure_future(spa.struct.get(
                     spa._protocol,
                     lambda: GeckoStatusBlockProtocolHandler.request(
@@ -110,13 +149,20 @@ def _run_async(res, case):
                              f"{retry * 12 + 30} virtual seconds, {nst} STATU requests sent so far")
                     return
                 ok = task.result()
+                if watcher is not None:
+                    if not watcher.done():
+                        watcher.cancel()
+                        await asyncio.gather(watcher, return_exceptions=True)
+                        C_exp = C          # the update was never sent
+                    else:
+                        await W.sleep(0.8)   # let the partial-update consumer take it
                 C2 = spa.struct.status_block
                 wire = W.wire[w0:]
                 nstatu = sum(1 for w in wire if w[1] == "c2s" and b"<DATAS>STATU" in w[4])
                 seg_faults = sum(1 for w in wire if w[1] == "s2c" and w[5] not in ("deliver",))
                 req_faults = sum(1 for w in wire if w[1] == "c2s" and w[5] not in ("deliver",))
                 faulty = bool(seg_faults or req_faults)
-                _check_transfer(res, f"transfer #{n}", "async", C, S, C2, ok, start, length, retry, nstatu, faulty,
+                _check_transfer(res, f"transfer #{n}", "async", C_exp, S, C2, ok, start, length, retry, nstatu, faulty,
                                 bool(case.get("jitter")))
                 if seg_faults and length > SEG:
                     stats["segs_faulted"] += 1
@@ -139,7 +185,7 @@ def _run_async(res, case):
 def _run_threaded(res, case):
     from .. import stepped
 
-    S, C = _blocks(case["seed"])
+    S, C = _blocks(case["seed"], int(case.get("taggy", 0)))
     trs = []
     for tr in case["transfers"]:
         start, length = tr["start"], tr["len"]
@@ -248,10 +294,13 @@ def strategy(tier):
     clean = st.builds(lambda g: {"start": g[0], "len": g[1], "retry": 2, "c2s": [], "s2c": [], "cyc": False}, _geom())
     transfer = st.one_of(transfer, transfer, persistent, clean)
     jitter = st.one_of(st.just([]), st.just([]), st.lists(st.sampled_from([0.0, 0.0, 0.01, 0.03, 0.05]), min_size=1, max_size=7))
+    with_statp = st.builds(lambda g, inj: {"start": g[0], "len": g[1], "retry": 3, "c2s": [], "s2c": [], "cyc": False, "statp": inj},
+                           _geom(), st.tuples(st.integers(1, 6), st.integers(0, 400)).map(list))
+    transfer = st.one_of(transfer, transfer, transfer, with_statp)
     return st.builds(
-        lambda k, seed, trs, j: {"k": k, "seed": seed, "transfers": trs, "jitter": j if k == "async" else []},
+        lambda k, seed, trs, j, tg: dict({"k": k, "seed": seed, "transfers": trs, "jitter": j if k == "async" else []}, **({"taggy": tg} if tg else {})),
         st.sampled_from(["async", "async", "threaded"]), st.integers(0, 2**31),
-        st.lists(transfer, min_size=1, max_size=4), jitter)
+        st.lists(transfer, min_size=1, max_size=4), jitter, st.sampled_from([0, 0, 1, 2, 3]))
 
 
 def run_case(case) -> Result:
